@@ -132,27 +132,55 @@ func c12a(c *Ctx, a *absVariant) {
 func c12b(c *Ctx, a *absVariant) {
 	r := c.R
 	vn := a.V.Name
-	// writers of maxFailInvertExpected
-	var writers []string
+	// writers of maxFailInvertExpected: every write is a toggle (x = !x), the address is never taken, and it sits in
+	// parseNotExpr or in a helper that is not an evaluator itself (the abstract interpreter follows helpers, with
+	// literal mode flags bound: what parseNotExpr and every other evaluator does with the flag is decided below)
+	var writers, badW []string
+	evaluators := map[string]bool{}
+	for _, n := range a.sortedNames() {
+		evaluators[n] = true
+	}
 	for _, fd := range a.V.Funcs() {
 		ast.Inspect(fd, func(n ast.Node) bool {
 			switch x := n.(type) {
 			case *ast.AssignStmt:
-				for _, l := range x.Lhs {
+				for i, l := range x.Lhs {
 					if strings.HasSuffix(nospace(l), ".maxFailInvertExpected") {
 						writers = append(writers, fd.Name.Name)
+						if i >= len(x.Rhs) || nospace(x.Rhs[i]) != "!"+nospace(l) {
+							badW = append(badW, fd.Name.Name+" assigns "+nospace(x.Rhs[0])+" (not a toggle)")
+						}
+						if evaluators[fd.Name.Name] && fd.Name.Name != "parseNotExpr" {
+							badW = append(badW, "written in the evaluator "+fd.Name.Name)
+						}
 					}
 				}
 			case *ast.UnaryExpr:
 				if x.Op.String() == "&" && strings.HasSuffix(nospace(x.X), ".maxFailInvertExpected") {
-					writers = append(writers, fd.Name.Name+"(address taken)")
+					badW = append(badW, fd.Name.Name+" takes its address")
 				}
 			}
 			return true
 		})
 	}
 	sort.Strings(writers)
-	r.Check(strings.Join(writers, ",") == "parseNotExpr,parseNotExpr", "C12-b", "T.maxFailInvertExpected:writers", vn, "builder/static_code.go", "two toggles in parseNotExpr", "written in ["+strings.Join(writers, ",")+"]")
+	if len(writers)%2 != 0 || len(writers) == 0 {
+		badW = append(badW, fmt.Sprintf("%d writes (toggles come in pairs)", len(writers)))
+	}
+	// no evaluator other than parseNotExpr inverts at all
+	for _, fn := range a.sortedNames() {
+		if fn == "parseNotExpr" {
+			continue
+		}
+		for _, e := range a.Res[fn].Exits {
+			for _, ev := range e.State.Ev {
+				if ev.Kind == "invert" {
+					badW = append(badW, fn+" inverts the expectation")
+				}
+			}
+		}
+	}
+	r.Check(len(badW) == 0, "C12-b", "T.maxFailInvertExpected:writers", vn, "builder/static_code.go", "toggles only, in pairs, reached from parseNotExpr alone", "written in ["+strings.Join(writers, ",")+"]: "+strings.Join(uniq(badW), "; "))
 	res := a.Res["parseNotExpr"]
 	if res == nil {
 		return
